@@ -130,6 +130,9 @@ func GenCluster(r *rand.Rand, p Profile, seed int64, w Wish) JCluster {
 			nc.MaxInflightMsgs = 1 + r.Intn(3)
 			if pct(r, 40) {
 				nc.MaxInflightBytes = max(nc.MaxSizePerMsg, uint64(10+r.Intn(60)))
+				if pct(r, 50) { // the byte limit is the one that binds
+					nc.MaxInflightMsgs = 256
+				}
 			}
 			nc.MaxCommittedSize = []uint64{0, 1, 30, 60}[r.Intn(4)]
 			if w.OnlySizeLimits {
@@ -583,7 +586,7 @@ func (d *Driver) Stabilize(rounds int) {
 	c.Quiet = false
 	var live []uint64
 	for _, id := range c.IDs {
-		if c.up(id) != nil {
+		if c.Nodes[id].Created {
 			live = append(live, id)
 		}
 	}
